@@ -1338,9 +1338,9 @@ def r14(F, R):
 
 
 def r15(F, R):
-    """JUnit: a test case can be attributed to its scenario — on every row of `test_case`'s table the name handed to the `TestCaseBuilder`
-    derives from the scenario's name AND its position (line and col), whatever the feature's path is (expanded outline rows and scenarios
-    sharing a name differ only there), and from the rule's name when there is a rule."""
+    """JUnit: a test case can be attributed to its scenario — on every path of `test_case` up to the construction of the case, the name
+    handed to the `TestCaseBuilder` derives from the scenario's name AND its position (line and col), whatever the feature's path is
+    (expanded outline rows and scenarios sharing a name differ only there)."""
     if not any(b.name.startswith("writer::junit::") for b in F.crate_bodies()):
         return
     from . import deep as D
@@ -1351,10 +1351,17 @@ def r15(F, R):
     if len(tcs) != 1:
         raise Unverifiable(f"JUnit test-case builder role: {len(tcs)}")
     b = tcs[0]
-    dp = D.Deep(F, b, max_paths=4000, opaque=r"coerce_error$|trim_path$")
+    builders = [(s_, t) for s_, t in b.calls(lambda t: callee_is(t, r"TestCaseBuilder::(success|skipped|failure|error)$"))]
+    if len(builders) < 3:
+        raise Unverifiable(f"JUnit::test_case: {len(builders)} TestCaseBuilder constructions in the routine itself")
+    # the table is cut at the constructions (what follows — rendering the embedded output — multiplies paths and cannot change the name);
+    # what is read there is the name argument
+    dp = D.Deep(F, b, max_paths=6000, opaque=r"coerce_error$|trim_path$")
+    dp.stop_term = frozenset(s_.bb for s_, _ in builders)
+    dp.stop_read = {s_.bb: [t["args"][0]] for s_, t in builders}
     rows = dp.run()
-    if not rows or any(p.cut for p in rows):
-        raise Unverifiable("JUnit::test_case: empty path table or a loop")
+    if not rows:
+        raise Unverifiable("JUnit::test_case: empty path table")
     T = Typer(F, b, dp)
     sc_args = [i for i in range(1, b.arg_count + 1) if "gherkin::Scenario" in b.locals[i]]
     if len(sc_args) != 1:
@@ -1362,15 +1369,20 @@ def r15(F, R):
     scn = b.debug_name(sc_args[0]) or f"_{sc_args[0]}"
     n, bad = 0, None
     for p in rows:
+        if not (isinstance(p.ret, tuple) and p.ret and p.ret[0] == "reached" and len(p.ret) == 3):
+            continue        # a path that ends without constructing a case (a panic on a broken invariant)
+        n += 1
+        name = p.ret[2][0]
+        roots = set(T.roots(name))
+        # a name put together with push_str: what was appended to the same String counts
         for e in p.effects:
-            if e[0] == "call" and re.search(r"TestCaseBuilder::(success|skipped|failure|error)$", e[1]):
-                n += 1
-                roots = set(T.roots(e[2][0]))
-                need = {f"{scn}.name", f"{scn}.position.line", f"{scn}.position.col"}
-                if not need <= roots:
-                    conds = " ∧ ".join(f"{D.fmt(b, a)[:40]}={o}" for a, o in p.conds[:5])
-                    bad = bad or f"[{conds}] the test case is named from {sorted(roots)} — without {sorted(need - roots)}"
-    R.check(bad is None and n >= 3, "junit/case-name-identifies-scenario", b, f"{n} test-case constructions, each named from the scenario's name, line and col",
+            if e[0] == "call" and re.search(r"String::push_str$|fmt::Write::write_(str|fmt)$", e[1]) and _norm(e[2][0]) == _norm(name):
+                roots |= set(T.roots(e[2][1]))
+        need = {f"{scn}.name", f"{scn}.position.line", f"{scn}.position.col"}
+        if not need <= roots:
+            conds = " ∧ ".join(f"{D.fmt(b, a)[:40]}={o}" for a, o in p.conds[:5])
+            bad = bad or f"[{conds}] the test case is named from {sorted(roots)} — without {sorted(need - roots)}"
+    R.check(bad is None and n >= 3, "junit/case-name-identifies-scenario", b, f"{n} paths to a test-case construction, each named from the scenario's name, line and col",
             f"JUnit test case name: {bad or 'no construction found'}: scenarios sharing a name (expanded outline rows) can no longer be told apart, a failure cannot be attributed")
     R.floor(1)
 
